@@ -19,10 +19,11 @@ func init() {
 			{ID: "R04.3", Configs: "all", Run: ruleR04_3},
 			{ID: "R04.4", Configs: "all", Run: ruleR04_4},
 			{ID: "R04.5", Configs: "all", Run: ruleR04_5},
+			{ID: "R04.6", Configs: "all", Run: ruleR04_6},
 		},
 		Explanation: "Decides only the rollback discipline that makes decoding restartable at any input boundary, not schedule independence itself: (R04.1) in decodeHuffmanLargeLoop every exit that reports end-of-input hands back a consistent, unconsumed triple (bits, bitsLen, input) - all three defined at one and the same program point, with no lookup-table value in their computation since the loop head - and an output position that dominates every output store of the iteration; " +
 			"(R04.2) in the header parser every call that consumes bits is followed, before any success return, by a test of the bit count (or by another consuming call that carries the same obligation), so a header parsed from too few bits is staged instead of accepted; (R04.3) an end-of-input rollback that can follow, within the same iteration, the parking of literals in the overflow carry clears the carry (the symbol is decoded again after the refill); " +
-			"(R04.4) inflate.readHeader, on its end-of-input edge, restores bits and bitsLen to their values at entry, stages the unread input behind the bytes already staged and advances the staging count by exactly that copy; (R04.5) the inflater acquires input only through Peek/Buffered/Discard on its bufio.Reader (non-destructive acquisition).",
+			"(R04.4) inflate.readHeader, on its end-of-input edge, restores bits and bitsLen to their values at entry, stages the unread input behind the bytes already staged and advances the staging count by exactly that copy; (R04.5) the inflater acquires input only through Peek/Buffered/Discard on its bufio.Reader (non-destructive acquisition); (R04.6) the scratch counters that the code-length parser increments are cleared on every attempt to parse a dynamic header, so a header that is re-parsed after a refill is not counted twice.",
 		NotDecided: []string{
 			"that the staged header and the carry are interpreted correctly when decoding resumes",
 			"the assembly loop's end_of_input path beyond R18.6 (state write-back)",
@@ -605,4 +606,59 @@ func ruleR04_5(p *Program, r *Report) {
 		}
 	}
 	_ = types.Typ
+}
+
+// R04.6: scratch state that readLitDistLens accumulates into is cleared on every attempt.
+func ruleR04_6(p *Program, r *Report) {
+	r.Expect("R04.6", 2)
+	setup := p.Method(flateRel, "inflate", "setupDynamicHeader")
+	rd := p.Method(flateRel, "inflate", "readLitDistLens")
+	if setup == nil || rd == nil {
+		r.Undecided("R04.6", "anchors", "-", "setupDynamicHeader and readLitDistLens exist", "not found")
+		return
+	}
+	// which fields of the header scratch does the parser write? (relative to its ctx parameter)
+	eff := p.Effects()
+	fields := map[string]bool{}
+	for i, par := range rd.Params {
+		if isNamedType(par.Type(), modPath+"/"+flateRel, "dynamicHeaderReader") {
+			for _, sel := range eff.ParamWrites(rd, i) {
+				f := sel
+				if j := strings.IndexAny(f[1:], ".[^~"); j >= 0 {
+					f = f[:j+1]
+				}
+				fields[f] = true
+			}
+		}
+	}
+	var call ssa.CallInstruction
+	for _, c := range allCalls(setup) {
+		if c.Common().StaticCallee() == rd {
+			call = c
+		}
+	}
+	if call == nil || len(fields) == 0 {
+		r.Undecided("R04.6", "setupDynamicHeader|parser call", p.Pos(setup.Pos()), "the header setup calls the code-length parser, which writes scratch fields", "not found")
+		return
+	}
+	for _, f := range sortedKeys(fields) {
+		zero := func(in ssa.Instruction) bool {
+			st, ok := in.(*ssa.Store)
+			if !ok {
+				return false
+			}
+			_, sel := accessPath(st.Addr)
+			if !strings.HasSuffix(sel, ".dynHdr"+f) {
+				return false
+			}
+			c, isC := st.Val.(*ssa.Const)
+			return isC && c.Value == nil
+		}
+		found, _, path := PathQuery{Target: func(x ssa.Instruction) bool { return x == ssa.Instruction(call) }, Barrier: zero}.Find(setup)
+		why := ""
+		if found {
+			why = "the parser is reached (blocks " + fmtInts(path) + ") without clearing dynHdr" + f + ": when a header is parsed again after a refill its code lengths are counted on top of the first attempt's"
+		}
+		r.Check(!found, "R04.6", "setupDynamicHeader|clear dynHdr"+f, p.InstrPos(call), "scratch field dynHdr"+f+" is cleared on every path to the code-length parser", why)
+	}
 }
